@@ -95,12 +95,14 @@ def splitSizes : Bytes → List Nat → List Bytes
 
 def showVal : Val → String
   | .bool true => "T" | .bool false => "F" | .none => "N"
+  | .emptyList => "L"
   | .int i => s!"i{i}"
   | .str s => "s" ++ ".".intercalate (s.map toString)
 
 def parseVal (s : String) : Option Val :=
   if s == "T" then some (.bool true) else if s == "F" then some (.bool false)
   else if s == "N" then some .none
+  else if s == "L" then some .emptyList
   else if s.startsWith "i" then ((s.drop 1).toString.toInt?).map .int
   else if s.startsWith "s" then
     let body := (s.drop 1).toString
